@@ -54,6 +54,7 @@ ASSUMPTIONS = [
     "WKS protocol and service mnemonics are resolved by the host's getprotobyname / getservbyname and are outside the model (only the numeric forms, which to_text always produces; counted corr.skip.wks-mnemonic-or-non-ascii-digits); an APL item of a family other than 1/2 stores its address as hex digits exactly as written (case kept); the model's value is the octets, printed in lower case as from_wire_parser stores them, so the two agree on values from wire and modulo hex-digit case on values from text",
     "IPSECKEY / AMTRELAY keep a gateway address as the text that was given (after inet_aton validation); WfText asks for a plain token that inet_aton accepts, which inet_ntoa's output is (gatewayOk_wire4/6)",
     "texts longer than 20000 characters (the oversized-key witnesses) are checked by the oracle only (model run time)",
+    "`encodable` is read against an origin under which the value's relative names fit (n ++ origin at most 255 octets; Name.to_wire raises NameTooLong otherwise, the documented error of the request like NeedAbsoluteNameOrOrigin): names read against the from_text origin fit it by construction; the TKEY / TSIG algorithm name is read without any origin, so the oracle falls back to the root origin for it (counted ft.encode.relative-name-does-not-fit-the-origin); a relative name of 255 octets, which no origin completes, is C01's subject (counted, not reported)",
     "informational, not a C05 violation: an unknown-family APL item whose address ends in zero octets (`!7:00/255`) round-trips through text exactly and encodes, but to_wire drops the trailing zero octets (as for families 1/2) and from_wire cannot pad them back; records compare by wire form, so the two values are equal for dnspython and for the oracle's semantic equality (wire-level loss is C02's subject)",
     "per-type proof status (proved / modelled / oracle-only) is listed in the evidence under coverage.type_status",
 ]
@@ -505,6 +506,12 @@ def eval_ft(ctx: Ctx, c: dict):
     try:
         t2 = rd.to_text(origin=origin, relativize=rel) if origin is not None else rd.to_text()
     except Exception as e:
+        if (isinstance(e, dns.name.NameTooLong) and origin is not None and not rel
+                and any(_wire_len(n) + _wire_len(origin) > 255 for n in _relative_names(rd))):
+            # derelativising (relativize=False) a name that was read without the origin overflows 255 octets: the
+            # documented error of the request, as in the from-wire oracle (style.derelativize-too-long)
+            ctx.count("ft.print.derelativize-too-long")
+            return
         trig = trigger_class(tname, rdclass, rdtype, rd, origin, lambda r: _no_raise(lambda: r.to_text()))
         _fail(ctx, f"C05/to_text/raises/{tname}/{type(e).__name__}/{trig}",
                  f"{tname}: value accepted from text {text!r} cannot be printed: {e!r}", rep)
@@ -707,11 +714,11 @@ def model_corr_fromtext(ctx, c, tname, text, origin, rel, rd, relto=None):
             toks = ["".join(chr(int(x)) for x in t.split(":", 1)[1].split(",")) if not t.endswith(":-") else "" for t in lex_impl(text).split(" ") if t]
         except Exception:
             toks = []
-        for attr in B64_ONE[tname]:
+        for attr, idx in B64_ONE[tname]:
             v = getattr(rd, attr)
             if len(v) == 0 and tname == "TSIG" and attr == "other":
                 continue
-            if len(v) == 0 or base64.b64encode(v).decode() not in toks:
+            if len(v) == 0 or idx >= len(toks) or base64.b64encode(v).decode() != toks[idx]:
                 ctx.count("corr.skip.noncanonical-base64")
                 return
         if tname == "TKEY":
